@@ -3,7 +3,7 @@
    the layout may change between the partial requests of one call. `sorted st` is the store
    invariant (established by [] and preserved by every mutating operation, see the _sorted parts). *)
 From Coq Require Import Sorting.Permutation.
-From Verif Require Import RawKV.Model RawKV.ProofsStore RawKV.ProofsLoops RawKV.ProofsBatch RawKV.ProofsRounds RawKV.ProofsCas RawKV.ProofsWire RawKV.ProofsPlans RawKV.ProofsTop RawKV.Sequence RawKV.ProofsReg RawKV.ProofsFam RawKV.Stream RawKV.ProofsStream RawKV.ProofsShape.
+From Verif Require Import RawKV.Model RawKV.ProofsStore RawKV.ProofsLoops RawKV.ProofsBatch RawKV.ProofsRounds RawKV.ProofsCas RawKV.ProofsWire RawKV.ProofsPlans RawKV.ProofsTop RawKV.Sequence RawKV.ProofsReg RawKV.ProofsLin RawKV.ProofsFam RawKV.Stream RawKV.ProofsStream RawKV.ProofsShape.
 
 (* get / put (with ttl) / delete: the map laws; the ttl never influences what Get returns *)
 Theorem C11_get_put_delete : forall st k v ttl k',
@@ -107,13 +107,13 @@ Print Assumptions C11_batch_put_last_wins.
 (* BatchPut that may have returned an error (some batch failed for good or was cancelled after
    others succeeded): every key keeps its entry or carries ITS last value of this call; keys
    outside the request are untouched; nothing else is promised (no atomicity across keys) *)
-Theorem C11_batch_put_partial : forall st sched kvs st' ok,
+Theorem C11_batch_put_partial_failure : forall st sched kvs st' ok,
   sorted st -> batch_put st sched kvs = Some (st', ok) ->
   sorted st' /\
   forall k, st_get st' k = st_get st k \/
             (In k (map fst kvs) /\ exists e, find_last kvs k = Some e /\ st_get st' k = Some e).
-Proof. exact c11_batch_put_partial. Qed.
-Print Assumptions C11_batch_put_partial.
+Proof. exact c11_batch_put_partial_failure. Qed.
+Print Assumptions C11_batch_put_partial_failure.
 
 Theorem C11_batch_delete : forall st sched keys st',
   sorted st -> bdel_rounds st sched keys = Some (st', true) ->
@@ -122,11 +122,11 @@ Theorem C11_batch_delete : forall st sched keys st',
 Proof. exact c11_batch_delete. Qed.
 Print Assumptions C11_batch_delete.
 
-Theorem C11_batch_delete_partial : forall st sched keys st' ok,
+Theorem C11_batch_delete_partial_failure : forall st sched keys st' ok,
   sorted st -> bdel_rounds st sched keys = Some (st', ok) ->
   sorted st' /\ forall k, st_get st' k = st_get st k \/ (In k keys /\ st_get st' k = None).
-Proof. exact c11_batch_delete_partial. Qed.
-Print Assumptions C11_batch_delete_partial.
+Proof. exact c11_batch_delete_partial_failure. Qed.
+Print Assumptions C11_batch_delete_partial_failure.
 
 (* sub-batching (512 keys / 16 KB) cuts a region group into consecutive pieces, and the result of
    a batch call does not depend on where the batches are cut nor on the order they are applied:
@@ -231,6 +231,22 @@ Theorem C11_register_per_key : forall k steps st,
   srv_get st' k = snd (reg_run (srv_get st k) (map fst calls)).
 Proof. exact register_per_key. Qed.
 Print Assumptions C11_register_per_key.
+
+(* LINEARIZABILITY of concurrent get / put / delete / CAS callers: every call has an invocation and a return stamp
+   and takes effect atomically at some instant in between (the store's mutex); listed by those instants the calls
+   form ONE sequential order that never places a call before one that had returned before it was invoked, and in
+   which every key is a register with CAS whose results are exactly what the callers saw. (C11_cas_interleaving and
+   C11_register_per_key are the two model-shape halves of this; this is the statement check_history searches for.) *)
+Theorem C11_linearizable : forall h st,
+  Forall tc_wf h -> commit_order h ->
+  respects_real_time h /\
+  forall k,
+    let '(rs, st') := store_run st (steps_of h) in
+    let calls := on_key k (steps_of h) rs in
+    map snd calls = fst (reg_run (srv_get st k) (map fst calls)) /\
+    srv_get st' k = snd (reg_run (srv_get st k) (map fst calls)).
+Proof. exact linearizable. Qed.
+Print Assumptions C11_linearizable.
 
 (* column families: what family c holds in the end is what the calls naming c produce on one map *)
 Theorem C11_families_independent : forall digest tops f rs f',
@@ -347,7 +363,7 @@ Example ex_sequence :
   = Some [RUnit; RCas None true; RUnit; RPairs [([97], [2])]].
 Proof. vm_compute. reflexivity. Qed.
 (* a batch put whose second region batch is dropped: a is written, c keeps its old entry *)
-Example ex_bput_partial :
+Example ex_bput_partial_failure :
   option_map (fun r => (map kv (fst r), snd r))
     (batch_put ex_store [([[98]], fun g _ => if bytes_eqb g [] then Served else Dropped)]
                [([97], mkEntry [5] 0); ([99], mkEntry [6] 0)])
@@ -394,3 +410,11 @@ Example ex_drange_stream :
 Proof. vm_compute. reflexivity. Qed.
 Example ex_partition : Permutation (flat_map snd (sub_batches key_chunks [[98]] [[99]; [97]; [99]])) [[99]; [97]; [99]].
 Proof. apply C11_batches_partition_request. exact key_chunks_ok. Qed.
+(* two overlapping CAS callers and a later reader: commit order = w1, w2, reader *)
+Example ex_linearizable :
+  let h := [mkTcall 1 2 5 [101] (RegCas None [1]); mkTcall 2 3 4 [101] (RegCas None [2]); mkTcall 6 7 8 [101] RegGet] in
+  Forall tc_wf h /\ commit_order h /\
+  fst (store_run ex_store (steps_of h)) = [ResCas None true; ResCas (Some [1]) false; ResVal (Some [1])].
+Proof.
+  cbv zeta. split; [repeat constructor|]. split; [repeat constructor|vm_compute; reflexivity].
+Qed.
